@@ -37,6 +37,7 @@ class Scene:
         self.layout = {}         # array name -> 'F' | 'strided' | 'bigendian' | 'float32' (how the library sees it)
         self.callform = {}       # argument name -> form tag (how scalar / sequence arguments are passed)
         self.axes = []           # generic axes exercised by this scene (evidence counters)
+        self.provenance = {}     # history of the objects handed to SourceCatalog (segmentation image, detection cat)
 
     def copy(self):
         s = Scene()
@@ -341,6 +342,8 @@ def relayout(a, how):
         return a.astype(a.dtype.newbyteorder('>'))
     if how == 'float32' and a.dtype.kind == 'f':
         return a.astype(np.float32)                   # scene values were rounded to float32 beforehand
+    if isinstance(how, str) and how.startswith('dtype:'):
+        return a.astype(how[6:])                      # scene values are exactly representable in that dtype
     return a.copy()
 
 
@@ -376,12 +379,52 @@ def catalog_kwargs(sc):
     return q(sc.data, 'data'), kw
 
 
-def make_segm(sc):
-    from photutils.segmentation import SegmentationImage
-    seg = relayout(sc.seg, sc.layout.get('seg'))
+def _seg_array(sc, seg):
+    seg = relayout(seg, sc.layout.get('seg'))
     if sc.layout.get('seg_dtype'):
         seg = seg.astype(sc.layout['seg_dtype'])
-    return SegmentationImage(seg)
+    return seg
+
+
+def make_segm(sc):
+    """SegmentationImage whose label array equals sc.seg - either fresh, or (sc.provenance['segm']) an object
+    with a history: built from a different label array, cached properties read, then brought to sc.seg through
+    the public API (relabel_consecutive(start_label), reassign_label, remove_labels / keep_labels)."""
+    from photutils.segmentation import SegmentationImage
+    prov = sc.provenance.get('segm')
+    if not prov:
+        return SegmentationImage(_seg_array(sc, sc.seg))
+    kind = prov['kind']
+    labels = np.array(sorted(int(x) for x in sc.labels))
+    pre = sc.seg.copy()
+    if kind == 'relabel_consecutive':
+        # order-preserving gapped numbering -> relabel_consecutive(start_label=k) gives k..k+n-1 (= sc.seg)
+        gaps = np.cumsum(np.asarray(prov['gaps'])[:len(labels)])
+        lut = np.zeros(int(labels.max()) + 1, dtype=np.int64)
+        lut[labels] = labels + gaps
+        pre = lut[sc.seg]
+    elif kind == 'reassign':
+        pre[sc.seg == prov['label']] = prov['tmp']
+    elif kind in ('remove', 'keep'):
+        for (y0, x0, h, w), lab in zip(prov['boxes'], prov['extra']):
+            sub = pre[y0:y0 + h, x0:x0 + w]
+            sub[sub == 0] = lab
+    segm = SegmentationImage(_seg_array(sc, pre.astype(sc.seg.dtype)))
+    if prov.get('read_before', True):
+        segm.slices, segm.labels, segm.areas, segm.bbox
+    if kind == 'relabel_consecutive':
+        segm.relabel_consecutive(start_label=int(labels.min()))
+    elif kind == 'reassign':
+        segm.reassign_label(prov['tmp'], prov['label'])
+    elif kind == 'remove':
+        present = [lab for lab in prov['extra'] if lab in segm.labels]
+        if present:
+            segm.remove_labels(present)
+    elif kind == 'keep':
+        segm.keep_labels([int(x) for x in labels])
+    if prov.get('read_after'):
+        segm.labels, segm.slices
+    return segm
 
 
 def make_catalog(sc, detection_cat=None, segm=None):
@@ -389,4 +432,21 @@ def make_catalog(sc, detection_cat=None, segm=None):
     data, kw = catalog_kwargs(sc)
     if segm is None:
         segm = make_segm(sc)
-    return SourceCatalog(data, segm, detection_cat=detection_cat, **kw)
+    cat = SourceCatalog(data, segm, detection_cat=detection_cat, **kw)
+    child = sc.provenance.get('as_child')
+    if child:
+        # a catalogue with a history: some properties read, then indexed with an identity selection; the
+        # full-length, same-order child is handed on (e.g. as detection catalogue)
+        for name in child.get('pre_read', ()):
+            getattr(cat, name)
+        how = child['how']
+        n = len(cat.labels)
+        if how == 'slice':
+            cat = cat[:]
+        elif how == 'list':
+            cat = cat[list(range(n))]
+        elif how == 'bool':
+            cat = cat[np.ones(n, dtype=bool)]
+        elif how == 'get_labels':
+            cat = cat.get_labels(cat.labels)
+    return cat
